@@ -1875,13 +1875,34 @@ class AstEval:
     async def ast_call(self, arg):
         """Evaluate function call."""
         func = await self.aeval(arg.func)
+        #
+        # positional arguments (including *args) are evaluated before keyword
+        # arguments; a keyword given more than once is an error
+        #
+        star_arg = None
+        if len(arg.args) == 1 and isinstance(arg.args[0], ast.Starred):
+            # a lone *arg is unpacked when the call is made, after the keywords are evaluated
+            star_arg = await self.aeval(arg.args[0].value)
+        else:
+            args = await self.eval_elt_list(arg.args)
         kwargs = {}
+        named = {}
         for kw_arg in arg.keywords:
-            if kw_arg.arg is None:
-                kwargs.update(await self.aeval(kw_arg.value))
-            else:
-                kwargs[kw_arg.arg] = await self.aeval(kw_arg.value)
-        args = await self.eval_elt_list(arg.args)
+            if kw_arg.arg is not None:
+                named[kw_arg.arg] = await self.aeval(kw_arg.value)
+                continue
+            self.merge_call_kwargs(kwargs, named)
+            named = {}
+            kw_dict = await self.aeval(kw_arg.value)
+            if not hasattr(kw_dict, "keys"):
+                raise TypeError(f"argument after ** must be a mapping, not {type(kw_dict).__name__}")
+            self.merge_call_kwargs(kwargs, {key: kw_dict[key] for key in kw_dict.keys()})
+        self.merge_call_kwargs(kwargs, named)
+        if len(arg.args) == 1 and isinstance(arg.args[0], ast.Starred):
+            args = [*star_arg]
+        for key in kwargs:
+            if not isinstance(key, str):
+                raise TypeError("keywords must be strings")
         #
         # try to deduce function name, although this only works in simple cases
         #
@@ -1894,6 +1915,14 @@ class AstEval:
             func_name = func.get_name()
             func = func.get()
         return await self.call_func(func, func_name, *args, **kwargs)
+
+    @staticmethod
+    def merge_call_kwargs(kwargs, new_kwargs):
+        """Add new_kwargs to the keyword arguments of a call, rejecting duplicates."""
+        for key, value in new_kwargs.items():
+            if key in kwargs:
+                raise TypeError(f"got multiple values for keyword argument '{key}'")
+            kwargs[key] = value
 
     async def call_func(self, func, func_name, *args, **kwargs):
         """Call a function with the given arguments."""
